@@ -2,7 +2,7 @@
    Statements only; proofs are `exact <lemma of ReportProofs>`.  The model (ReportModel.v) is
    applied by the correspondence check to the body the implementation actually printed. *)
 From Coq Require Import Permutation Sorted.
-From FV Require Import Base ReportModel ReportProofs.
+From FV Require Import Base ReportModel ReportProofs ReportProofs2.
 Open Scope N_scope.
 
 (* Header statistics are sums over exactly the printed groups. *)
@@ -83,6 +83,44 @@ Theorem C14_finalize_idempotent : forall flt gs,
   Forall (fun g => NoDup (map fpath (gfiles g))) gs -> finalize flt (finalize flt gs) = finalize flt gs.
 Proof. exact finalize_idempotent. Qed.
 Print Assumptions C14_finalize_idempotent.
+
+(* Every path listed under a group header is in exactly one sub-group (replica) of the filter: the
+   replica sizes add up to the header's count, whatever the roots and the hard-link mode. *)
+Theorem C14_subgroups_cover : forall files rs b,
+  sum_lengths (subgroups files rs b) = N.of_nat (length files).
+Proof. exact subgroups_total. Qed.
+Print Assumptions C14_subgroups_cover.
+
+(* The header can never claim more redundant files or bytes than it has files or bytes, and in a
+   duplicates report (`Over rf`) at least one file of every listed group is not redundant. *)
+Theorem C14_redundant_bounded : forall flt gs,
+  s_red_files (stats_of flt gs) <= s_files (stats_of flt gs) /\
+  s_red_size (stats_of flt gs) <= s_size (stats_of flt gs).
+Proof. exact stats_red_le. Qed.
+Print Assumptions C14_redundant_bounded.
+
+Theorem C14_redundant_strict : forall g flt rf, repl flt = Over rf -> gfiles g <> [] ->
+  redundant_spec g flt < N.of_nat (length (gfiles g)).
+Proof. exact redundant_spec_lt. Qed.
+Print Assumptions C14_redundant_strict.
+
+(* Redundant and missing never both appear in one header: they belong to different filters. *)
+Theorem C14_redundant_missing_exclusive : forall flt gs,
+  match repl flt with
+  | Over _ => s_mis_files (stats_of flt gs) = 0 /\ s_mis_size (stats_of flt gs) = 0
+  | Under _ => s_red_files (stats_of flt gs) = 0 /\ s_red_size (stats_of flt gs) = 0
+  end.
+Proof. exact stats_exclusive. Qed.
+Print Assumptions C14_redundant_missing_exclusive.
+
+(* The final ordering step keeps the number of groups, and each group keeps its length, hash and
+   set of files (hence its header count). *)
+Theorem C14_finalize_keeps_counts : forall flt gs,
+  length (finalize flt gs) = length gs /\
+  Forall2 (fun g h => glen g = glen h /\ ghash g = ghash h /\ Permutation (gfiles g) (gfiles h))
+          (finalize flt gs) (sort_groups gs).
+Proof. exact finalize_keeps_counts. Qed.
+Print Assumptions C14_finalize_keeps_counts.
 
 (* Non-vacuity: a two-root report in final order; a group outside the K8 class with redundancy. *)
 Definition ex_files : list file :=
